@@ -396,6 +396,8 @@ def check(run, prog):
     rule_token_identity(run, prog)
     from .c03_comment_layout import rule_literal_layout
     rule_literal_layout(run, prog, "R-17.7")
+    from .c17_literal_text import rule_literal_text_opaque
+    rule_literal_text_opaque(run, prog)      # R-17.8
 
 
 def rule_token_identity(run, prog):
